@@ -90,6 +90,7 @@ def parseOp : List String → Option Op
   | ["adm", "bkcfg", b] => (parseBool b).map (fun b => .admin (.bkcfg b))
   | ["adm", "coin"] => some (.admin .coInstall)
   | ["adm", "coun"] => some (.admin .coUninstall)
+  | ["adm", "corun"] => some (.admin .coRun)
   | ["dm", i, q, sc, ak, via] => do some (.dm (← i.toNat?) (← parseSql q) (← parseBool sc) (← parseBool ak) (← parseBool via))
   | ["rsx", i, q] => do some (.ransomReq (← i.toNat?) (← parseSql q))
   | ["fdel"] => some .fileDelete
